@@ -139,6 +139,12 @@ Qed.
 Lemma sep_here_suffix : is_digit "-" = false /\ Ascii.eqb "-" "v" = false.
 Proof. split; reflexivity. Qed.
 
+Lemma find_sep_from_none_shift : forall s i j, find_sep_from i s = None -> find_sep_from j s = None.
+Proof.
+  induction s as [|c r IH]; intros i j H; [reflexivity|].
+  cbn [find_sep_from] in *. destruct (sep_here (String c r)); [discriminate|]. eapply IH; eauto.
+Qed.
+
 (* no separator inside t, and t followed by "-v<digit>...": the first separator of the whole is at |t| *)
 Lemma find_sep_from_print : forall t i d rest,
   find_sep_from 0 t = None -> is_digit d = true ->
@@ -148,12 +154,7 @@ Proof.
   - simpl. rewrite Hd. f_equal. lia.
   - assert (sep_here (String c r) = false /\ find_sep_from 0 r = None) as [Hh Hr].
     { cbn [find_sep_from] in Hn. destruct (sep_here (String c r)); [discriminate|]. split; auto.
-      destruct (find_sep_from 0 r) eqn:F; auto.
-      assert (find_sep_from 1 r <> None) as X.
-      { apply find_sep_from_spec in F. destruct F as (n & -> & A & B & C).
-        intro Y. assert (find_sep_from 1 r = Some (1 + n)%nat) as Z by (apply find_sep_from_spec; exists n; auto).
-        congruence. }
-      contradiction. }
+      eapply find_sep_from_none_shift; eauto. }
     change (String c r ++ String "-" (String "v" (String d rest)))
       with (String c (r ++ String "-" (String "v" (String d rest)))).
     cbn [find_sep_from].
